@@ -155,6 +155,21 @@ pub fn resp_spec_strategy(custom_weight: u32) -> BoxedStrategy<crate::echo::Resp
         .boxed()
 }
 
+/// Responses without custom-typed messages (every part can return them, bridged or not).
+pub fn resp_spec_strategy_plain() -> BoxedStrategy<crate::echo::RespSpec> {
+    let n = SUB_KINDS.len() - 1;
+    let sub = ((0..n).prop_map(|i| SUB_KINDS[i].to_string()), any::<u64>(), proptest::option::of(any::<u64>()), 0u8..4, proptest::collection::vec(any::<u8>(), 0..10), any::<u32>(), "[a-z0-9/.]{1,12}")
+        .prop_map(|(kind, id, gas_limit, reply_on, payload, n, text)| SubSpec { kind, id, gas_limit, reply_on, payload, n, text });
+    (
+        proptest::collection::vec(sub, 0..4),
+        proptest::collection::vec(("[a-z][a-z_]{0,7}", "[ -~]{0,10}"), 0..3),
+        proptest::collection::vec(("[a-z][a-z_]{1,7}", proptest::collection::vec(("[a-z]{1,6}", "[ -~]{0,8}"), 0..3)), 0..2),
+        proptest::option::of(proptest::collection::vec(any::<u8>(), 0..12)),
+    )
+        .prop_map(|(msgs, attrs, events, data)| crate::echo::RespSpec { msgs, attrs, events, data })
+        .boxed()
+}
+
 pub fn response_of(spec: &crate::echo::RespSpec) -> Response<Empty> {
     let mut r: Response<Empty> = Response::new();
     for m in &spec.msgs {
